@@ -1387,6 +1387,10 @@ def generate(unit_dir, vacuity=False, mutate=None):
             if attrs.strip() and d == 'fn':
                 dropped.append(('attrs', re.sub(r'\s+', ' ', attrs.strip())))
             rules = kv['rules']
+            if 'assert-eq' not in rules:
+                # assert_eq! / strict_assert! / debug_assert! a change may ADD to an extracted function are checks of the code
+                # (a reachable failing assert is a panic): always put them in front of the verifier
+                rules = list(rules) + ['assert-eq']
             raw = src.text[s:e]
             nm = kv.get('name') or it['name']
             if d == 'fn':
